@@ -12,21 +12,21 @@ open SearchLemmas P19
 
 section
 variable (K : Keys) (root : Pos) (pvStr : Move → String) (maxD : Nat)
-  (C : Pos → Prop) (hmove : ∀ p m q, C p → makeMove K p m = some q → isLegal q = true → C q)
+  (C : Pos → Prop) (hmove : ∀ p m q, C p → GenMv p m → makeMove K p m = some q → isLegal q = true → C q)
   (hnull : ∀ p, C p → isInCheck p p.side = false → C (makeNull K p).1)
   (heval : ∀ p v, C p → evalRaw p = some v → EvalRange v) (hroot : C root)
 include hmove hnull heval hroot
 
 /-- the hypothesis `hgood` of C04, proved: no root search from a sane table returns `-32718` strictly inside an `InWin` window -/
-theorem searchRoot_not_bad (d : Nat) (a b : Int) (hw : InWin a b) (s s' : SState) (hs : TTSane s.tt)
+theorem searchRoot_not_bad_gen (d : Nat) (a b : Int) (hw : InWin a b) (s s' : SState) (hs : TTSane s.tt)
     (v : Int) (pvl : Option (List Move)) (h : searchRoot K root d a b s = (.ok (v, pvl), s')) (h1 : a < v) (h2 : v < b) :
     v ≠ -32718 := by
   intro e
-  have := searchRoot_prov K C hmove hnull heval root hroot d a b hw s s' hs v pvl h h1 h2
+  have := searchRoot_prov_gen K C hmove hnull heval root hroot d a b hw s s' hs v pvl h h1 h2
   rw [e] at this
   exact not_prov_bad this
 
-theorem go_pv_legal_sane (f d : Nat) (a b : Int) (s : SState) (hw : WinOK a b) (hs : TTSane s.tt)
+theorem go_pv_legal_sane_gen (f d : Nat) (a b : Int) (s : SState) (hw : WinOK a b) (hs : TTSane s.tt)
     (hpv : LegalLine K root s.pv) :
     LegalLine K root (searchIterative.go K root pvStr maxD f d a b s).2.pv ∧
       TTSane (searchIterative.go K root pvStr maxD f d a b s).2.tt := by
@@ -63,7 +63,7 @@ theorem go_pv_legal_sane (f d : Nat) (a b : Int) (s : SState) (hw : WinOK a b) (
             · omega
           apply ih
           · exact winok_next hiw hin.1 hin.2
-              (searchRoot_not_bad K root C hmove hnull heval hroot d a b hiw s s' hs score pvl hr hin.1 hin.2)
+              (searchRoot_not_bad_gen K root C hmove hnull heval hroot d a b hiw s s' hs score pvl hr hin.1 hin.2)
           · exact hts'
           · show LegalLine K root (pvl.getD [])
             exact pvok_getD (post_searchRoot K root d a b hiw s (score, pvl) s' hr)
@@ -81,18 +81,18 @@ theorem go_pv_legal_sane (f d : Nat) (a b : Int) (s : SState) (hw : WinOK a b) (
             · show LegalLine K root s'.pv
               rw [hpv']; exact hpv
 
-theorem searchIterative_pv_legal_sane (s : SState) (hs : TTSane s.tt) (h : LegalLine K root s.pv) :
+theorem searchIterative_pv_legal_sane_gen (s : SState) (hs : TTSane s.tt) (h : LegalLine K root s.pv) :
     LegalLine K root (searchIterative K root pvStr maxD s).2.pv ∧ TTSane (searchIterative K root pvStr maxD s).2.tt := by
   unfold searchIterative
-  exact go_pv_legal_sane K root pvStr maxD C hmove hnull heval hroot 2000 1 (-INF) INF s (Or.inl inwin_root) hs h
+  exact go_pv_legal_sane_gen K root pvStr maxD C hmove hnull heval hroot 2000 1 (-INF) INF s (Or.inl inwin_root) hs h
 
 omit maxD in
-theorem search_answer_legal_sane (d : Nat) (s s' : SState) (m : Move) (hts : TTSane s.tt) (hs : s.pv = [])
+theorem search_answer_legal_sane_gen (d : Nat) (s s' : SState) (m : Move) (hts : TTSane s.tt) (hs : s.pv = [])
     (h : search K root pvStr d s = (.ok m, s')) (hm : m ≠ 0) :
     (∃ rest, s'.pv = m :: rest ∧ LegalLine K root (m :: rest)) ∧ TTSane s'.tt := by
   obtain ⟨s1, h1, hc⟩ := search_cases K root pvStr d s m s' h
   have hl1 : LegalLine K root s1.pv ∧ TTSane s1.tt := by
-    have := searchIterative_pv_legal_sane K root pvStr (if d > 0 then d else maxDepth) C hmove hnull heval hroot s hts
+    have := searchIterative_pv_legal_sane_gen K root pvStr (if d > 0 then d else maxDepth) C hmove hnull heval hroot s hts
       (by rw [hs]; exact LegalLine.nil root)
     rw [h1] at this
     exact this
@@ -100,12 +100,37 @@ theorem search_answer_legal_sane (d : Nat) (s s' : SState) (m : Move) (hts : TTS
   · obtain ⟨rest, hrest⟩ := head_of_getD hmm hm
     refine ⟨⟨rest, by rw [hs']; exact hrest, ?_⟩, by rw [hs']; exact hl1.2⟩
     rw [← hrest]; exact hl1.1
-  · have hl2 := searchIterative_pv_legal_sane K root pvStr 1 C hmove hnull heval hroot
+  · have hl2 := searchIterative_pv_legal_sane_gen K root pvStr 1 C hmove hnull heval hroot
       { s1 with mainPolls := s1.polls, cancelAt := none } hl1.2 hl1.1
     rw [h2] at hl2
     obtain ⟨rest, hrest⟩ := head_of_getD hmm hm
     refine ⟨⟨rest, hrest, ?_⟩, hl2.2⟩
     rw [← hrest]; exact hl2.1
+end
+
+/-! ### the statements for a class closed under ALL move words (as used by C04c) -/
+
+section
+variable (K : Keys) (root : Pos) (pvStr : Move → String) (maxD : Nat)
+  (C : Pos → Prop) (hmove : ∀ p m q, C p → makeMove K p m = some q → isLegal q = true → C q)
+  (hnull : ∀ p, C p → isInCheck p p.side = false → C (makeNull K p).1)
+  (heval : ∀ p v, C p → evalRaw p = some v → EvalRange v) (hroot : C root)
+include hmove hnull heval hroot
+
+theorem searchRoot_not_bad (d : Nat) (a b : Int) (hw : InWin a b) (s s' : SState) (hs : TTSane s.tt)
+    (v : Int) (pvl : Option (List Move)) (h : searchRoot K root d a b s = (.ok (v, pvl), s')) (h1 : a < v) (h2 : v < b) :
+    v ≠ -32718 :=
+  searchRoot_not_bad_gen K root C (fun p m q hp _ => hmove p m q hp) hnull heval hroot d a b hw s s' hs v pvl h h1 h2
+
+theorem searchIterative_pv_legal_sane (s : SState) (hs : TTSane s.tt) (h : LegalLine K root s.pv) :
+    LegalLine K root (searchIterative K root pvStr maxD s).2.pv ∧ TTSane (searchIterative K root pvStr maxD s).2.tt :=
+  searchIterative_pv_legal_sane_gen K root pvStr maxD C (fun p m q hp _ => hmove p m q hp) hnull heval hroot s hs h
+
+omit maxD in
+theorem search_answer_legal_sane (d : Nat) (s s' : SState) (m : Move) (hts : TTSane s.tt) (hs : s.pv = [])
+    (h : search K root pvStr d s = (.ok m, s')) (hm : m ≠ 0) :
+    (∃ rest, s'.pv = m :: rest ∧ LegalLine K root (m :: rest)) ∧ TTSane s'.tt :=
+  search_answer_legal_sane_gen K root pvStr C (fun p m q hp _ => hmove p m q hp) hnull heval hroot d s s' m hts hs h hm
 end
 
 end BadWin
